@@ -416,8 +416,14 @@ Section TypeInfo.
         let after := map (fun a => snd (type_info a s')) args in
         (s', T f before after)
     | EDelExt pfx p compact =>
+        (* del.rs type_info.  `compact = false` stands for a call without the compact argument (the
+           printer never writes `compact: false`): the type state is then the merge of both outcomes *)
         let k := ext_kind s pfx in
-        (set_ext_kind s pfx (fst (fst (kremove k p compact))), td_of (at_path k p))
+        let rm c := set_ext_kind s pfx (fst (fst (kremove k p c))) in
+        let s' := if compact then rm true
+                  else let f := rm false in let t := rm true in
+                       mkTs (locals s) (union (tgt f) (tgt t)) (union (mdk f) (mdk t)) in
+        (s', td_of (at_path k p))
     | EDelVar x p _ =>
         (s, td_at_path (match lvar (locals s) x with Some d => fst d | None => td_of k_undefined end) p)
     | EExistsExt _ _ => (s, td_of k_boolean)
